@@ -163,6 +163,12 @@ func SystematicC19(seed uint64) []*Plan {
 					case EvRunF:
 						p.Events = []Event{{Op: EvRunF, Target: bad.Name}, {Op: EvRunD}}
 					}
+					for i := range p.Events {
+						genEnv(r, &p.Events[i])
+					}
+					if n%4 == 0 {
+						setTimes(r, p)
+					}
 					plans = append(plans, p)
 				}
 			}
@@ -174,6 +180,41 @@ func SystematicC19(seed uint64) []*Plan {
 var globs = []string{"*.go", "*.pb.go", "a*.go", "[m-z]*.go", "*", "*.g?", "z*"}
 
 func genRun(r *detsim.Rand, names []string) Event {
+	ev := genRunPlain(r, names)
+	genEnv(r, &ev)
+	return ev
+}
+
+var zones = []string{"UTC", "Etc/GMT+12", "Etc/GMT-14", "Asia/Shanghai", "America/New_York", "Europe/Lisbon"}
+
+// genEnv draws the environment of one invocation (the last draws of the event: paths and targets are what they were before).
+func genEnv(r *detsim.Rand, ev *Event) {
+	switch r.Weighted([]int{8, 1, 1}) {
+	case 1:
+		ev.Stdio = "pty"
+	case 2:
+		ev.Stdio = "null"
+	}
+	if r.Chance(1, 4) {
+		ev.TZ = zones[r.Intn(len(zones))]
+	}
+}
+
+// setTimes puts the invocations of a history on a calendar: a start near an interesting instant, then steps of seconds,
+// hours, days, months or years between invocations.
+func setTimes(r *detsim.Rand, p *Plan) {
+	starts := []int64{1772366400, 1798761590, 1709251195, 2147483640, 1743292790, 946684790} // 2026-03-01 12:00, 2026-12-31 23:59:50, 2024-02-29 23:59:55, 2038-01-19 03:14:00, 2025-03-30 (a DST night in Europe), 1999-12-31 23:59:50 (UTC)
+	t := starts[r.Intn(len(starts))]
+	for i := range p.Events {
+		switch p.Events[i].Op {
+		case EvRunD, EvRunF, EvRunP:
+			p.Events[i].At = t
+			t += []int64{0, 1, 20, 3600, 86400, 40 * 86400, 400 * 86400}[r.Intn(7)]
+		}
+	}
+}
+
+func genRunPlain(r *detsim.Rand, names []string) Event {
 	form := 0
 	if r.Chance(1, 3) {
 		form = 1 + r.Intn(3) // how the path is written on the command line
@@ -214,6 +255,9 @@ func GenC19(r *detsim.Rand) *Plan {
 	for i := 0; i < k; i++ {
 		p.Events = append(p.Events, genRun(r, names))
 	}
+	if r.Chance(1, 4) {
+		setTimes(r, p)
+	}
 	return p
 }
 
@@ -225,6 +269,15 @@ func GenC07(r *detsim.Rand) *Plan {
 	var names []string
 	for i := 0; i < n; i++ {
 		e := healthyEntry(r, nameAt(poss[r.Intn(3)], i), r.Chance(5, 6))
+		p.Entries = append(p.Entries, e)
+		names = append(names, e.Name)
+	}
+	if r.Chance(1, 3) {
+		// one of the unusual valid shapes is there from the start (idempotence is promised for every Go file, not only for the usual ones)
+		e := faultEntry(r, "shape:"+UnexpectedKinds[r.Intn(len(UnexpectedKinds))], poss[r.Intn(3)], n)
+		for _, c := range companions(r, &e) {
+			p.Entries = append(p.Entries, c)
+		}
 		p.Entries = append(p.Entries, e)
 		names = append(names, e.Name)
 	}
@@ -264,6 +317,9 @@ func GenC07(r *detsim.Rand) *Plan {
 	k := 1 + r.Intn(3)
 	for i := 0; i < k; i++ {
 		p.Events = append(p.Events, genRun(r, names))
+	}
+	if r.Chance(1, 3) {
+		setTimes(r, p)
 	}
 	return p
 }
